@@ -141,7 +141,7 @@ spec("C11", "sync preserves the rest",
      "Necessary conditions: (MOD-F) between reading a target module and writing it back the only field-visible writes on the tree are the replacer's or identity-preserving "
      "re-listings, the reader's docstring re-indent being disabled at the call site; (FILE-5) appended text starts on a new line so the file still parses; (VISIT-2) at most "
      "one node is replaced; (VISIT-6) locations are compared by exact equality; (VISIT-4) locations are built inductively, so only the addressed node can match.",
-     floors={"MOD-F": 4, "FILE-5": 1, "VISIT-2": 1, "VISIT-6": 3, "VISIT-4": 3},
+     floors={"MOD-F": 3, "FILE-5": 1, "VISIT-2": 1, "VISIT-6": 3, "VISIT-4": 3},
      technique="frame rule over AST field writes on the read->write path; guard analysis; visitor-protocol checks",
      not_decided="that black/ast.unparse keep every other statement's tree (trusted); statements inside a replaced function (function targets are never replaced today: VISIT-1)")
 
@@ -169,7 +169,7 @@ spec("C14", "sync_properties changes exactly the addressed property",
      "Necessary conditions: (FILE-1) no value derived from the input filename reaches the path of a write sink; (FILE-7) the single write of the output file comes after all "
      "pairs and every returning path after the transformer ran tests `.replaced` with a raising failing branch; (MOD-F) only the addressed node is field-mutated on the "
      "read->write path; (MOD-F2) the node taken from the input tree is copied before it is mutated/grafted; (CLI-1) CLI dests bind to the worker's signature.",
-     floors={"FILE-1": 2, "FILE-7": 2, "MOD-F": 4, "MOD-F2": 1, "CLI-1": 2},
+     floors={"FILE-1": 2, "FILE-7": 2, "MOD-F": 3, "MOD-F2": 1, "CLI-1": 2},
      technique="taint over the call graph, CFG path facts, frame rule, ownership of foreign nodes",
      not_decided="that the addressed node is the right one (C15), eval mode (executes the input module)")
 
